@@ -1,13 +1,63 @@
 (* Proofs/C10Proofs.v — laws of the update/delete/add_relation/reopen machine, for every state,
    every operation and every history (induction over the operation list). *)
-From GV Require Import Base.Prelude Base.PyStr Model.Bins Model.DB Model.Parser Model.Import Model.Machine
+From GV Require Import Base.Prelude Base.PyStr Model.Bins Model.DB Model.Parser Model.Import Model.GtfSpec Model.Machine
   Proofs.IntStr Proofs.C04Proofs.
 Open Scope Z_scope.
 
+(* ---------- both importers keep the keys unique ---------- *)
+Section Ids.
+  Variable call : nat -> row -> option str.
+
+  Lemma step_gtf_ids g strat force spec st f0 st' : NoDup (ids st) -> step_gtf call g strat force spec st f0 = Ok st' -> NoDup (ids st').
+  Proof.
+    intros Hnd. unfold step_gtf. destruct (store call strat force spec st f0) as [o|e] eqn:E; [|discriminate].
+    pose proof (store_ids call strat force spec st f0 o Hnd E) as L. destruct o as [s1|s1 id]; intros H; inversion H; subst.
+    - rewrite L. exact Hnd.
+    - exact L.
+  Qed.
+
+  Lemma insert_derived_ids force spec st f0 st' : NoDup (ids st) -> insert_derived call force spec st f0 = Ok st' -> NoDup (ids st').
+  Proof.
+    intros Hnd. unfold insert_derived. destruct (negb (derived_clean f0)); [discriminate|].
+    destruct (id_handler call spec f0 (s_auto st)) as [[id a]|e]; [|discriminate]. cbn [s_rows s_rels s_dups].
+    destruct (has_id id (s_rows st)) eqn:E.
+    - destruct (rev (filter _ _)) as [|target rest].
+      + destruct (fresh_auto _ _ _ _) as [[nid a']|]; [|discriminate]. intros H. inversion H. exact Hnd.
+      + intros H. inversion H. unfold ids. cbn [s_rows]. rewrite ids_update; [exact Hnd|]. intros r. reflexivity.
+    - intros H. inversion H. unfold ids. cbn [s_rows]. rewrite map_app. cbn. apply NoDup_snoc; [exact Hnd|].
+      intro Hin. apply has_id_In in Hin. congruence.
+  Qed.
+
+  Lemma run_steps_ids (stepf : ist -> row -> result ist) :
+    (forall st f st', NoDup (ids st) -> stepf st f = Ok st' -> NoDup (ids st')) ->
+    forall fs st st', NoDup (ids st) -> run_steps stepf fs st = Ok st' -> NoDup (ids st').
+  Proof.
+    intros Hs. induction fs as [|f fs IH]; intros st st' Hnd H; cbn [run_steps] in H; [inversion H; subst; exact Hnd|].
+    destruct (stepf st f) as [s1|e] eqn:E; [|discriminate]. eapply IH; [|exact H]. eapply Hs; eassumption.
+  Qed.
+
+  Lemma update_relations_gff_ids st st' : NoDup (ids st) -> update_relations_gff st = Ok st' -> NoDup (ids st').
+  Proof. unfold update_relations_gff. destruct (read_pairs (grand_pairs st)); [|discriminate]. intros Hnd H. inversion H. exact Hnd. Qed.
+
+  Lemma update_relations_gtf_ids g force spec st st' : NoDup (ids st) -> update_relations_gtf call g force spec st = Ok st' -> NoDup (ids st').
+  Proof.
+    unfold update_relations_gtf. destruct (g_no_genes g && g_no_transcripts g); [intros Hnd H; inversion H; subst; exact Hnd|].
+    destruct (derive g st (tg_pairs g st) None) as [ds|e]; [|discriminate]. intros Hnd. apply run_steps_ids; [|exact Hnd].
+    intros s f s' A B. eapply insert_derived_ids; eassumption.
+  Qed.
+End Ids.
+
 Section M.
   Variable call : nat -> row -> option str.
-  Notation step := (step call).
-  Notation run := (run call).
+  Variable kind : dbkind.
+  Notation step := (step call kind).
+  Notation run := (run call kind).
+
+  Lemma step_imp_ids strat spec st f st' : NoDup (ids st) -> step_imp call kind strat spec st f = Ok st' -> NoDup (ids st').
+  Proof. unfold step_imp. destruct kind; [apply (step_ids call)|apply step_gtf_ids]. Qed.
+
+  Lemma rel_imp_ids spec st st' : NoDup (ids st) -> rel_imp call kind spec st = Ok st' -> NoDup (ids st').
+  Proof. unfold rel_imp. destruct kind; [apply update_relations_gff_ids|apply update_relations_gtf_ids]. Qed.
 
   (* ---------- delete: the named rows and exactly the relations mentioning them ---------- *)
   Theorem l_delete_rows s ids b r :
@@ -61,10 +111,10 @@ Section M.
   Proof. cbn. repeat split. Qed.
 
   (* ---------- run_track is the importer's run with the counters remembered ---------- *)
-  Lemma run_track_fst strat spec : forall fs st, fst (run_track call strat spec fs st) = run_steps (step_gff call strat [] spec) fs st.
+  Lemma run_track_fst strat spec : forall fs st, fst (run_track call kind strat spec fs st) = run_steps (step_imp call kind strat spec) fs st.
   Proof.
     induction fs as [|f fs IH]; intros st; [reflexivity|]. cbn [run_track run_steps].
-    destruct (step_gff call strat [] spec st f); [apply IH|reflexivity].
+    destruct (step_imp call kind strat spec st f); [apply IH|reflexivity].
   Qed.
 
   (* ---------- the backup is the complete pre-operation state, whatever happens next ---------- *)
@@ -78,7 +128,7 @@ Section M.
       destruct (match fail with Some k => Nat.leb k (length fs) | None => false end) eqn:Ef; try reflexivity;
       match goal with |- context [run_track ?c ?a ?b ?l ?st] => destruct (run_track c a b l st) as [r mem'] end;
       (destruct r as [st'|e]; [|reflexivity]); try reflexivity;
-      destruct (update_relations_gff st'); reflexivity.
+      destruct (rel_imp call kind spec st'); reflexivity.
   Qed.
 
   Theorem l_backup_delete s ids : m_bak (fst (step s (OpDelete ids true))) = Some (m_disk s).
@@ -96,7 +146,7 @@ Section M.
         destruct (match fail with Some k => Nat.leb k (length fs) | None => false end) eqn:Ef; try reflexivity;
         match goal with |- context [run_track ?c ?a ?b ?l ?st] => destruct (run_track c a b l st) as [r mem'] end;
         (destruct r as [st'|e]; [|reflexivity]); try reflexivity;
-        destruct (update_relations_gff st'); reflexivity.
+        destruct (rel_imp call kind spec st'); reflexivity.
     - cbn [step]. unfold do_addrel. destruct (negb _ || negb _); [reflexivity|]. destruct (has_rel _ _); reflexivity.
   Qed.
 
@@ -116,12 +166,12 @@ Section M.
   (* an update that raises while populating (duplicate under 'error', several ID values, ...) is
      rolled back as well *)
   Theorem l_failed_populate_atomic s fs strat spec w b e :
-    fst (run_track call strat spec fs (with_auto (m_disk s) (m_mem s))) = Err e ->
+    fst (run_track call kind strat spec fs (with_auto (m_disk s) (m_mem s))) = Err e ->
     m_disk (fst (step s (OpUpdate fs strat spec w None b))) = m_disk s.
   Proof.
     intros H. cbn [step]. unfold do_update. cbn [andb].
     destruct fs as [|f0 fs']; [reflexivity|].
-    destruct (run_track call strat spec (f0 :: fs') (with_auto (m_disk s) (m_mem s))) as [r mem']. cbn [fst] in H. subst r. reflexivity.
+    destruct (run_track call kind strat spec (f0 :: fs') (with_auto (m_disk s) (m_mem s))) as [r mem']. cbn [fst] in H. subst r. reflexivity.
   Qed.
 
   (* ---------- reopen ---------- *)
@@ -141,29 +191,30 @@ Section M.
 
   Theorem l_step_ids_unique s o : NoDup (ids (m_disk s)) -> NoDup (ids (m_disk (fst (step s o)))).
   Proof.
-    intros Hnd. destruct o as [fs strat spec w fail b|idl b|p c l rt|]; cbn [step].
+    intros Hnd. destruct o as [fs strat spec w fail b|idl b|p c l rt|]; cbn [Machine.step].
     - unfold do_update.
       destruct (match fail with Some k => Nat.leb k (length fs) | None => false end
                 && Nat.leb (length match fail with Some k => firstn k fs | None => fs end) w); [exact Hnd|].
       set (avail := match fail with Some k => firstn k fs | None => fs end).
       set (fails := match fail with Some k => Nat.leb k (length fs) | None => false end).
-      assert (G : forall l, let '(r, mem') := run_track call strat spec l (with_auto (m_disk s) (m_mem s)) in
+      assert (G : forall l, let '(r, mem') := run_track call kind strat spec l (with_auto (m_disk s) (m_mem s)) in
                   NoDup (ids (m_disk (fst (match r with
                     | Err e => (mkM (m_disk s) mem' (if b then Some (m_disk s) else m_bak s), Err e)
                     | Ok st' => if fails then (mkM (m_disk s) mem' (if b then Some (m_disk s) else m_bak s), Err EOther)
-                                else match update_relations_gff st' with
+                                else match rel_imp call kind spec st' with
                                      | Err e => (mkM (with_auto st' (s_auto (m_disk s))) mem' (if b then Some (m_disk s) else m_bak s), Err e)
-                                     | Ok st'' => (mkM (with_auto st'' (persist (s_auto (m_disk s)) mem')) mem' (if b then Some (m_disk s) else m_bak s), Ok tt)
+                                     | Ok st'' => (mkM (with_auto st'' (persist (s_auto (m_disk s)) (s_auto st''))) (s_auto st'') (if b then Some (m_disk s) else m_bak s), Ok tt)
                                      end end))))).
       { intros l. pose proof (run_track_fst strat spec l (with_auto (m_disk s) (m_mem s))) as F.
-        destruct (run_track call strat spec l (with_auto (m_disk s) (m_mem s))) as [r mem']. cbn [fst] in F.
+        destruct (run_track call kind strat spec l (with_auto (m_disk s) (m_mem s))) as [r mem']. cbn [fst] in F.
         destruct r as [st'|e]; [|exact Hnd]. destruct fails; [exact Hnd|].
-        assert (L : NoDup (ids st')) by (eapply (run_ids call); [|symmetry; exact F]; exact Hnd).
-        destruct (update_relations_gff st') as [st''|e] eqn:E; cbn; [|exact L].
-        unfold ids in *. cbn. rewrite (update_relations_rows _ _ E). exact L. }
+        assert (L : NoDup (ids st')).
+        { eapply (run_steps_ids (step_imp call kind strat spec)); [intros a f a' A B; eapply step_imp_ids; eassumption| |symmetry; exact F]. exact Hnd. }
+        destruct (rel_imp call kind spec st') as [st''|e] eqn:E; cbn; [|exact L].
+        exact (rel_imp_ids spec st' st'' L E). }
       destruct avail as [|f0 av] eqn:Ea; destruct fails eqn:Ef; try exact Hnd.
-      + pose proof (G (f0 :: av)) as G'. destruct (run_track call strat spec (f0 :: av) (with_auto (m_disk s) (m_mem s))) as [r mem']. exact G'.
-      + pose proof (G (f0 :: av)) as G'. destruct (run_track call strat spec (f0 :: av) (with_auto (m_disk s) (m_mem s))) as [r mem']. exact G'.
+      + pose proof (G (f0 :: av)) as G'. destruct (run_track call kind strat spec (f0 :: av) (with_auto (m_disk s) (m_mem s))) as [r mem']. exact G'.
+      + pose proof (G (f0 :: av)) as G'. destruct (run_track call kind strat spec (f0 :: av) (with_auto (m_disk s) (m_mem s))) as [r mem']. exact G'.
     - cbn. unfold ids. cbn. apply filter_ids_NoDup. exact Hnd.
     - unfold do_addrel. destruct (negb _ || negb _); [exact Hnd|]. destruct (has_rel _ _); [exact Hnd|].
       destruct rt; [|exact Hnd]. unfold ids in *. cbn [m_disk fst s_rows]. rewrite ids_update; [exact Hnd|].
@@ -283,12 +334,52 @@ Section Mono.
     eapply id_handler_cle. exact E.
   Qed.
 
-  Lemma run_track_cle strat spec : forall fs st, cle (s_auto st) (snd (run_track call strat spec fs st)) /\
-    forall st', fst (run_track call strat spec fs st) = Ok st' -> s_auto st' = snd (run_track call strat spec fs st).
+  Lemma step_gtf_cle g strat force spec st f0 st' : step_gtf call g strat force spec st f0 = Ok st' -> cle (s_auto st) (s_auto st').
+  Proof.
+    unfold step_gtf. destruct (store call strat force spec st f0) as [o|e] eqn:E; [|discriminate].
+    pose proof (store_cle _ _ _ _ _ _ E) as L. destruct o as [s1|s1 id]; intros H; inversion H; subst; exact L.
+  Qed.
+
+  Lemma insert_derived_cle force spec st f0 st' : insert_derived call force spec st f0 = Ok st' -> cle (s_auto st) (s_auto st').
+  Proof.
+    unfold insert_derived. destruct (negb (derived_clean f0)); [discriminate|].
+    destruct (id_handler call spec f0 (s_auto st)) as [[id a]|e] eqn:E; [|discriminate]. pose proof (id_handler_cle _ _ _ _ _ E) as L.
+    cbn [s_rows s_rels s_dups]. destruct (has_id id (s_rows st)).
+    - destruct (rev (filter _ _)) as [|target rest].
+      + destruct (fresh_auto _ _ _ _) as [[nid a']|] eqn:Ef; [|discriminate]. intros H. inversion H. cbn.
+        eapply cle_trans; [exact L|eapply fresh_auto_cle; exact Ef].
+      + intros H. inversion H. exact L.
+    - intros H. inversion H. exact L.
+  Qed.
+
+  Lemma run_steps_cle (stepf : ist -> row -> result ist) :
+    (forall st f st', stepf st f = Ok st' -> cle (s_auto st) (s_auto st')) ->
+    forall fs st st', run_steps stepf fs st = Ok st' -> cle (s_auto st) (s_auto st').
+  Proof.
+    intros Hs. induction fs as [|f fs IH]; intros st st' H; cbn [run_steps] in H; [inversion H; apply cle_refl|].
+    destruct (stepf st f) as [s1|e] eqn:E; [|discriminate]. eapply cle_trans; [eapply Hs; exact E|eapply IH; exact H].
+  Qed.
+
+  Variable kind : dbkind.
+
+  Lemma step_imp_cle strat spec st f st' : step_imp call kind strat spec st f = Ok st' -> cle (s_auto st) (s_auto st').
+  Proof. unfold step_imp. destruct kind; [apply step_gff_cle|apply step_gtf_cle]. Qed.
+
+  Lemma rel_imp_cle spec st st' : rel_imp call kind spec st = Ok st' -> cle (s_auto st) (s_auto st').
+  Proof.
+    unfold rel_imp. destruct kind.
+    - unfold update_relations_gff. destruct (read_pairs (grand_pairs st)); [|discriminate]. intros H. inversion H. apply cle_refl.
+    - unfold update_relations_gtf. destruct (g_no_genes gtf_default && g_no_transcripts gtf_default); [intros H; inversion H; apply cle_refl|].
+      destruct (derive gtf_default st (tg_pairs gtf_default st) None) as [ds|e]; [|discriminate].
+      apply run_steps_cle. intros a f a' H. eapply insert_derived_cle. exact H.
+  Qed.
+
+  Lemma run_track_cle strat spec : forall fs st, cle (s_auto st) (snd (run_track call kind strat spec fs st)) /\
+    forall st', fst (run_track call kind strat spec fs st) = Ok st' -> s_auto st' = snd (run_track call kind strat spec fs st).
   Proof.
     induction fs as [|f fs IH]; intros st; [split; [apply cle_refl|intros st' H; inversion H; reflexivity]|].
-    cbn [run_track]. destruct (step_gff call strat [] spec st f) as [s1|e] eqn:E.
-    - destruct (IH s1) as [A B]. split; [|exact B]. eapply cle_trans; [eapply step_gff_cle; exact E|exact A].
+    cbn [run_track]. destruct (step_imp call kind strat spec st f) as [s1|e] eqn:E.
+    - destruct (IH s1) as [A B]. split; [|exact B]. eapply cle_trans; [eapply step_imp_cle; exact E|exact A].
     - cbn [fst snd]. split; [apply after_failed_cle|discriminate].
   Qed.
 End Mono.
@@ -325,6 +416,7 @@ Qed.
 
 Section Hist.
   Variable call : nat -> row -> option str.
+  Variable kind : dbkind.
 
   (* the table never lags ahead of the open object's counters *)
   Definition Linv (s : mstate) : Prop := cle (s_auto (m_disk s)) (m_mem s).
@@ -333,7 +425,7 @@ Section Hist.
   Proof. apply cle_refl. Qed.
 
   Theorem l_step_counters s o : Linv s ->
-    Linv (fst (step call s o)) /\ cle (s_auto (m_disk s)) (s_auto (m_disk (fst (step call s o)))).
+    Linv (fst (step call kind s o)) /\ cle (s_auto (m_disk s)) (s_auto (m_disk (fst (step call kind s o)))).
   Proof.
     intros L. unfold Linv in *. destruct o as [fs strat spec w fail b|idl b|p c l rt|]; cbn [step].
     - unfold do_update.
@@ -341,28 +433,30 @@ Section Hist.
                 && Nat.leb (length match fail with Some k => firstn k fs | None => fs end) w); [split; [exact L|apply cle_refl]|].
       set (avail := match fail with Some k => firstn k fs | None => fs end).
       set (fails := match fail with Some k => Nat.leb k (length fs) | None => false end).
-      assert (G : forall l0, let '(r, mem') := run_track call strat spec l0 (with_auto (m_disk s) (m_mem s)) in
+      assert (G : forall l0, let '(r, mem') := run_track call kind strat spec l0 (with_auto (m_disk s) (m_mem s)) in
                   let res := match r with
                     | Err e => (mkM (m_disk s) mem' (if b then Some (m_disk s) else m_bak s), Err e)
                     | Ok st' => if fails then (mkM (m_disk s) mem' (if b then Some (m_disk s) else m_bak s), Err EOther)
-                                else match update_relations_gff st' with
+                                else match rel_imp call kind spec st' with
                                      | Err e => (mkM (with_auto st' (s_auto (m_disk s))) mem' (if b then Some (m_disk s) else m_bak s), Err e)
-                                     | Ok st'' => (mkM (with_auto st'' (persist (s_auto (m_disk s)) mem')) mem' (if b then Some (m_disk s) else m_bak s), Ok tt)
+                                     | Ok st'' => (mkM (with_auto st'' (persist (s_auto (m_disk s)) (s_auto st''))) (s_auto st'') (if b then Some (m_disk s) else m_bak s), Ok tt)
                                      end end in
                   cle (s_auto (m_disk (fst res))) (m_mem (fst res)) /\ cle (s_auto (m_disk s)) (s_auto (m_disk (fst res)))).
-      { intros l0. destruct (run_track_cle call strat spec l0 (with_auto (m_disk s) (m_mem s))) as [A _].
-        destruct (run_track call strat spec l0 (with_auto (m_disk s) (m_mem s))) as [r mem']. cbn [snd with_auto s_auto] in A.
+      { intros l0. destruct (run_track_cle call kind strat spec l0 (with_auto (m_disk s) (m_mem s))) as [A B].
+        destruct (run_track call kind strat spec l0 (with_auto (m_disk s) (m_mem s))) as [r mem']. cbn [fst snd with_auto s_auto] in A, B.
         assert (Lm : cle (s_auto (m_disk s)) mem') by (eapply cle_trans; eassumption).
         destruct r as [st'|e]; [|split; [exact Lm|apply cle_refl]].
         destruct fails; [split; [exact Lm|apply cle_refl]|].
-        destruct (update_relations_gff st') as [st''|e]; cbn [fst m_disk m_mem with_auto s_auto].
-        - split; [apply persist_cle_mem; exact Lm|apply persist_cle_table; exact Lm].
+        destruct (rel_imp call kind spec st') as [st''|e] eqn:E; cbn [fst m_disk m_mem with_auto s_auto].
+        - assert (Lf : cle (s_auto (m_disk s)) (s_auto st'')).
+          { eapply cle_trans; [exact Lm|]. rewrite <- (B st' eq_refl). eapply rel_imp_cle. exact E. }
+          split; [apply persist_cle_mem; exact Lf|apply persist_cle_table; exact Lf].
         - split; [exact Lm|apply cle_refl]. }
       destruct avail as [|f0 av] eqn:Ea; destruct fails eqn:Ef.
       + pose proof (G []) as G'. cbn in G'. exact G'.
       + split; [exact L|apply cle_refl].
-      + pose proof (G (f0 :: av)) as G'. destruct (run_track call strat spec (f0 :: av) (with_auto (m_disk s) (m_mem s))) as [r mem']. exact G'.
-      + pose proof (G (f0 :: av)) as G'. destruct (run_track call strat spec (f0 :: av) (with_auto (m_disk s) (m_mem s))) as [r mem']. exact G'.
+      + pose proof (G (f0 :: av)) as G'. destruct (run_track call kind strat spec (f0 :: av) (with_auto (m_disk s) (m_mem s))) as [r mem']. exact G'.
+      + pose proof (G (f0 :: av)) as G'. destruct (run_track call kind strat spec (f0 :: av) (with_auto (m_disk s) (m_mem s))) as [r mem']. exact G'.
     - cbn. split; [exact L|apply cle_refl].
     - unfold do_addrel. destruct (negb _ || negb _); [split; [exact L|apply cle_refl]|]. destruct (has_rel _ _); split; try exact L; apply cle_refl.
     - cbn. split; apply cle_refl.
@@ -371,7 +465,7 @@ Section Hist.
   (* over every history: the persisted counters only grow, so numbering continues across updates AND
      reopenings and a number once written to the table is never handed out again *)
   Theorem l_history_counters : forall ops s, Linv s ->
-    Linv (run call s ops) /\ cle (s_auto (m_disk s)) (s_auto (m_disk (run call s ops))).
+    Linv (run call kind s ops) /\ cle (s_auto (m_disk s)) (s_auto (m_disk (run call kind s ops))).
   Proof.
     induction ops as [|o ops IH]; intros s L; [split; [exact L|apply cle_refl]|]. cbn [Machine.run].
     destruct (l_step_counters s o L) as [L1 M1]. destruct (IH _ L1) as [L2 M2]. split; [exact L2|]. eapply cle_trans; eassumption.
